@@ -138,7 +138,7 @@ func c05cliCases(thorough bool, yield func(k c05cliCase)) {
 				w.TotalLen = uint16(n)
 				yield(c05cliCase{name: fmt.Sprintf("%s:%s --iplen %d", tag, cmd, n), args: append(args, "--iplen", fmt.Sprint(n)), vpn: vpn, want: w, payloadLen: pl})
 			}
-			for _, n := range []int{1, 2, 3, 47, 48, 49, 255, 1472} {
+			for _, n := range []int{1, 2, 3, 47, 48, 49, 255, 1472, 1473, 1477, 1491, 4000, 9000, 65000} { // beyond 1472: frames larger than an Ethernet MTU (loopback, jumbo frames, tunnels)
 				w, args, _ := mk()
 				w.Payload = zzref.C05Payload(n)
 				yield(c05cliCase{name: fmt.Sprintf("%s:%s --payload <%d bytes>", tag, cmd, n), args: append(args, "--payload", c05escape(w.Payload)), vpn: vpn, want: w, payloadLen: -1})
